@@ -509,4 +509,128 @@ theorem HistInv.run {R : Path} {now : Nat} {w : World} (H : HistInv R now w) (op
   | nil => exact H
   | cons op ops ih => exact ih (H.step op hok.1) hok.2
 
+
+/-! ### the table restricted to one key is a one-cell machine driven by the reports -/
+
+/-- a notification whose path has been resolved to its key (`relUnder`) and whose time is after the epoch -/
+inductive Note where
+  | created (rel : Path) (size : Nat) (t : Nat)
+  | accessed (rel : Path) (t : Nat)
+  | deleted (rel : Path)
+
+def applyNote (inv : List Row) : Note → List Row
+  | .created rel size t => upsert ⟨rel, toI64 size, t, t⟩ inv
+  | .accessed rel t => setAtime rel t inv
+  | .deleted rel => invDelete rel inv
+
+/-- what the reports say about one key: `none` = not tracked, `some t` = tracked and last reported as
+accessed at `t` (a `created` report counts as an access; `accessed` for an untracked key is ignored) -/
+def lastReport (rel : Path) : Option Nat → List Note → Option Nat
+  | s, [] => s
+  | s, .created r _ t :: ns => lastReport rel (if r = rel then some t else s) ns
+  | s, .accessed r t :: ns => lastReport rel (if r = rel then s.map (fun _ => t) else s) ns
+  | s, .deleted r :: ns => lastReport rel (if r = rel then none else s) ns
+
+/-- the access time the table stores for a key -/
+def atimeOf (rel : Path) (inv : List Row) : Option Nat :=
+  (inv.find? (fun x => x.rel == rel)).map (·.atime)
+
+theorem atimeOf_upsert_same (r : Row) (inv : List Row) : atimeOf r.rel (upsert r inv) = some r.atime := by
+  induction inv with
+  | nil => simp [upsert, atimeOf]
+  | cons x xs ih =>
+    simp only [upsert]
+    split
+    · simp [atimeOf]
+    · next ne =>
+      have : (x.rel == r.rel) = false := by simpa using ne
+      simp only [atimeOf, List.find?, this] at ih ⊢
+      exact ih
+
+theorem atimeOf_upsert_other (r : Row) (rel : Path) (h : r.rel ≠ rel) (inv : List Row) :
+    atimeOf rel (upsert r inv) = atimeOf rel inv := by
+  have hr : (r.rel == rel) = false := by simpa using h
+  induction inv with
+  | nil => simp [upsert, atimeOf, hr]
+  | cons x xs ih =>
+    simp only [upsert]
+    split
+    · next e =>
+      have hx : (x.rel == rel) = false := by rw [e]; exact hr
+      simp [atimeOf, List.find?, hr, hx]
+    · cases hx : x.rel == rel
+      · simp only [atimeOf, List.find?, hx] at ih ⊢
+        exact ih
+      · simp [atimeOf, List.find?, hx]
+
+theorem atimeOf_setAtime (r rel : Path) (t : Nat) (inv : List Row) :
+    atimeOf rel (setAtime r t inv) = if r = rel then (atimeOf rel inv).map (fun _ => t) else atimeOf rel inv := by
+  induction inv with
+  | nil => simp [setAtime, atimeOf]
+  | cons x xs ih =>
+    have e : setAtime r t (x :: xs) = (if x.rel = r then { x with atime := t } else x) :: setAtime r t xs := rfl
+    rw [e]
+    by_cases hxr : x.rel = r
+    · rw [if_pos hxr]
+      cases hx : x.rel == rel
+      · have hx' : (({ x with atime := t } : Row).rel == rel) = false := hx
+        simp only [atimeOf, List.find?, hx, hx'] at ih ⊢
+        exact ih
+      · have hx' : (({ x with atime := t } : Row).rel == rel) = true := hx
+        have : r = rel := by rw [← hxr]; simpa using hx
+        simp [atimeOf, List.find?, hx, hx', this]
+    · rw [if_neg hxr]
+      cases hx : x.rel == rel
+      · simp only [atimeOf, List.find?, hx] at ih ⊢
+        exact ih
+      · have : r ≠ rel := by
+          intro e2; apply hxr; rw [e2]; simpa using hx
+        simp [atimeOf, List.find?, hx, this]
+
+theorem atimeOf_invDelete (r rel : Path) (inv : List Row) :
+    atimeOf rel (invDelete r inv) = if r = rel then none else atimeOf rel inv := by
+  induction inv with
+  | nil => simp [invDelete, atimeOf]
+  | cons x xs ih =>
+    unfold invDelete at ih ⊢
+    cases hxr : x.rel == r
+    · simp only [List.filter, hxr, Bool.not_false]
+      cases hx : x.rel == rel
+      · simp only [atimeOf, List.find?, hx] at ih ⊢
+        exact ih
+      · have : r ≠ rel := by
+          intro e2
+          have h1 : x.rel = rel := by simpa using hx
+          have h2 : ¬ x.rel = r := by simpa using hxr
+          exact h2 (by rw [h1, e2])
+        simp [atimeOf, List.find?, hx, this]
+    · simp only [List.filter, hxr, Bool.not_true]
+      by_cases hrr : r = rel
+      · rw [if_pos hrr] at ih ⊢; exact ih
+      · rw [if_neg hrr] at ih ⊢
+        have hx : (x.rel == rel) = false := by
+          have h1 : x.rel = r := by simpa using hxr
+          rw [h1]; simpa using hrr
+        rw [ih]
+        simp [atimeOf, List.find?, hx]
+
+/-- **The stored access time of a key is the time of its last report**, for every sequence of reports. -/
+theorem atimeOf_foldl (rel : Path) (notes : List Note) (inv : List Row) :
+    atimeOf rel (notes.foldl applyNote inv) = lastReport rel (atimeOf rel inv) notes := by
+  induction notes generalizing inv with
+  | nil => rfl
+  | cons n ns ih =>
+    rw [List.foldl_cons, ih]
+    cases n with
+    | created r size t =>
+      simp only [lastReport, applyNote]
+      by_cases h : r = rel
+      · subst h
+        rw [if_pos rfl, atimeOf_upsert_same ⟨r, toI64 size, t, t⟩ inv]
+      · rw [if_neg h, atimeOf_upsert_other ⟨r, toI64 size, t, t⟩ rel h inv]
+    | accessed r t =>
+      simp only [lastReport, applyNote, atimeOf_setAtime]
+    | deleted r =>
+      simp only [lastReport, applyNote, atimeOf_invDelete]
+
 end Quota
